@@ -367,8 +367,63 @@ def run(ctx):
             j = added[0]
             sides_ok = (j.left is (pred_step.result if left_is_model else data_step.result)) and (j.right is (data_step.result if left_is_model else pred_step.result))
             ctx.ob('C15.join-sides', label, sides_ok, f'[{label}] the join keeps the sides of the query (model on the {"left" if left_is_model else "right"})', file=TS, line=pl.lineno)
+    rows += table_kind_rows(ctx, fns)
     ctx.setcount('truth_table_rows', rows)
     ctx.floor('truth_table_rows', 135)
+
+
+def table_kind_rows(ctx, fns, rule='C15.table-kind'):
+    """plan() interpreted on every kind of thing that can stand beside the model in the join (a table, another join, a set operation, a sub-select over a table -
+    the dbt form -, a sub-select over a join): the fetch queries are built `FROM <that thing>` and sent to an integration, so plan_timeseries_predictor may only
+    ever be handed a table reference; every other shape is refused with PlanningException / NotImplementedError - not passed on to fail somewhere with an
+    internal error (AttributeError: 'Join' object has no attribute 'parts')."""
+    pl = fns['plan']
+    n = 0
+    model = ident('proj.tp')
+    shapes = {
+        'a table': lambda: ident('int1.tbl'),
+        'a native query': lambda: Obj('NativeQuery', integration=ident('int1'), query='select * from tab', alias=ident('t')),
+        'another join': lambda: Obj('Join', left=ident('int1.a'), right=ident('proj.other'), join_type='JOIN', condition=None, implicit=False, alias=None),
+        'a set operation': lambda: Obj('Union', left=select_ctor(None, targets=[Obj('Star')], from_table=ident('int1.a')),
+                                       right=select_ctor(None, targets=[Obj('Star')], from_table=ident('int2.b')), unique=True, alias=None),
+        'a sub-select over a table': lambda: select_ctor(None, targets=[Obj('Star')], from_table=ident('int1.tbl')),
+        'a sub-select over a join': lambda: select_ctor(None, targets=[Obj('Star')], from_table=Obj('Join', left=ident('int1.a'), right=ident('int1.b'), join_type='JOIN',
+                                                                                                   condition=None, implicit=False, alias=None)),
+    }
+    for (label, mk), left_is_model in itertools.product(shapes.items(), (False, True)):
+        other = mk()
+        handed = []
+        stubs = base_stubs()
+        stubs['self.planner.is_predictor'] = lambda it, n_: n_ is model
+        stubs['self.planner.get_predictor_namespace_and_name_from_identifier'] = lambda it, n_: ('proj', n_)
+
+        def ptp(it, q, table, *a, handed=handed):
+            handed.append(table)
+            return {'predictor': Obj('ApplyTimeseriesPredictorStep', result=Obj('Result', ref_name='r2')), 'data': Obj('FetchDataframeStep', result=Obj('Result', ref_name='r1')),
+                    'saved_limit': None}
+        stubs['self.plan_timeseries_predictor'] = ptp
+        stubs['self.get_aliased_fields'] = lambda it, t: {}
+        stubs['recursively_check_join_identifiers_for_ambiguity'] = lambda it, *a, **k: None
+        stubs['Join'] = lambda it, **k: Obj('Join', **k)
+        stubs['self.adapt_dbt_query'] = lambda it, q, integration: (q, q.from_table.left.from_table if left_is_model is False else q.from_table.right.from_table)
+        stubs['self.planner.plan.add_step'] = lambda it, s_: (setattr(s_, 'result', Obj('Result', ref_name='r')), s_)[1]
+        stubs['self.planner.plan_project'] = lambda it, q, df: Obj('Projected', dataframe=df)
+        join = Obj('Join', left=model if left_is_model else other, right=other if left_is_model else model, join_type='JOIN', condition=None, implicit=False, alias=None)
+        q = select_ctor(None, targets=[Obj('Star')], from_table=join)
+        it = interp_for(stubs)
+        it.isa.update({'Identifier': set(), 'Join': set(), 'Select': set(), 'Union': set(), 'NativeQuery': set()})
+        raised = None
+        try:
+            it.call_function(pl, [Obj('PlanJoinTSPredictorQuery'), q], {}, Env())
+        except Raised as r:
+            raised = r.exc_name
+        n += 1
+        ok = (raised in ('PlanningException', 'NotImplementedError') and not handed) or (raised is None and len(handed) == 1 and handed[0].kind in ('Identifier', 'NativeQuery'))
+        ctx.ob(rule, f'{label}, model on the {"left" if left_is_model else "right"}', ok,
+               f'a time-series model joined with {label}: plan() {"raises " + raised if raised else "hands " + repr([h.kind for h in handed]) + " to plan_timeseries_predictor"}; '
+               f'the data side must be a table reference or a native query (the fetch queries are written FROM it), anything else must be refused with PlanningException', file=TS, line=pl.lineno,
+               witness='select * from int.tab1 a join proj.pred1 p1 join proj.ts t')
+    return n
 
 
 def _conjuncts(w, top=True):
